@@ -247,6 +247,9 @@ def readPos (n : Nat) (s : Bytes) : Res Bytes × Bytes :=
   else if s.length < n then (.error .trunc, [])
   else (.ok (s.take n), s.drop n)
 
+/-- the `msglen` that `stream_deserialize` unpacks from a stream holding at least a header -/
+def declaredLen (s : Bytes) : Nat := leNat ((s.drop 16).take 4)
+
 /-- `MsgSerializable.stream_deserialize(f)`: outcome (`none` = the `return None` of an unknown
     command) and the stream that remains -/
 def streamDeserialize (magic : Bytes) (s : Bytes) : Res (Option Msg) × Bytes :=
